@@ -23,7 +23,7 @@ RULE += " Depth-limit DAGs: single-reference chains of depth 512/1000/1023 and d
 ASSUMPTIONS = ['payload bytes are representatives; shapes/option sets/width boundaries are complete up to the bound']
 NOT_ASSERTED = ['has_cache_bits without has_idx (not a valid option combination)', 'Builder entry point for exotic roots (refused by design)']
 
-ENCODINGS = ['bytes', 'hex', 'b64']
+ENCODINGS = ['bytes', 'hex', 'b64', 'HEX (upper case)', 'hEx (mixed case)']
 ENTRIES = ['Cell', 'Slice', 'Builder']
 
 
@@ -33,7 +33,7 @@ def BOUNDS(tier):
 
 
 def REQUIRED_COVER(tier):
-    return {'opt:plain', 'opt:idx+crc+cache', 'enc:b64', 'entry:Builder', 'entry:Slice', 'exotic', 'cells:257', 'payload:65536', 'objects'}
+    return {'opt:plain', 'opt:idx+crc+cache', 'enc:b64', 'enc:HEX', 'entry:Builder', 'entry:Slice', 'exotic', 'cells:257', 'payload:65536', 'objects'}
 
 
 def shards(tier, seed, objects=True):
@@ -81,6 +81,9 @@ def case_dag(rec, name, opt_i, tier=None):
     if not big:
         forms['hex'] = data.hex()
         forms['b64'] = base64.b64encode(data).decode()
+        # the hex-string form is case-insensitive text: upper case and mixed case denote the same bytes
+        forms['HEX'] = data.hex().upper()
+        forms['hEx'] = ''.join(c.upper() if i % 3 == 0 else c for i, c in enumerate(data.hex()))
     results = {}
     for enc, form in forms.items():
         for entry in ENTRIES:
